@@ -21,7 +21,8 @@ def build_corpus(out, tier, seed, wd, dump, kinds=("tokseq", "lexer", "programs"
             f.write(json.dumps(c, separators=(",", ":")) + "\n")
             n += 1
         if "tokseq" in kinds:
-            for cfg in (["MC_TokenSeq_q3", "MC_TokenSeq_q4", "MC_TokenSeq_se5"] if tier == "quick" else ["MC_TokenSeq_t4", "MC_TokenSeq_t3all", "MC_TokenSeq_t5"]):
+            quick_cfgs = ["MC_TokenSeq_q3", "MC_TokenSeq_q4", "MC_TokenSeq_se5"] if not dump else ["MC_TokenSeq_q3", "MC_TokenSeq_grp5", "MC_TokenSeq_bal6"]
+            for cfg in (quick_cfgs if tier == "quick" else ["MC_TokenSeq_t4", "MC_TokenSeq_t3all", "MC_TokenSeq_t5", "MC_TokenSeq_bal7", "MC_TokenSeq_grp5"]):
                 pp = os.path.join(wd, cfg + ".ndjson")
                 cnt, res = vlib.generate(out.pid, "MC_TokenSeq", cfg, pp, timeout=3000)
                 out.add_model(res)
@@ -37,7 +38,8 @@ def build_corpus(out, tier, seed, wd, dump, kinds=("tokseq", "lexer", "programs"
                 for p in vlib.read_ndjson(pp):
                     emit({"input": p["input"], "tag": "chars"})
         if "programs" in kinds:
-            for cfg in (["MC_Programs_q3", "MC_Programs_chains7"] if tier == "quick" else ["MC_Programs_t4", "MC_Programs_conds6", "MC_Programs_lists5", "MC_Programs_calls8"]):
+            for cfg in (["MC_Programs_q3", "MC_Programs_chains7", "MC_Programs_sc5", "MC_Programs_conds5", "MC_Programs_calls6", "MC_Programs_host4"] if tier == "quick"
+                        else ["MC_Programs_t4", "MC_Programs_conds6", "MC_Programs_lists5", "MC_Programs_calls8", "MC_Programs_sc7", "MC_Programs_host5", "MC_Programs_arith5"]):
                 pp = os.path.join(wd, cfg + ".ndjson")
                 cnt = progs.generate_programs(out, cfg, pp, timeout=3000)
                 parts.append("%s=%d" % (cfg, cnt))
